@@ -1,10 +1,303 @@
-import Fv.Lemmas.CacheFrame
+import Fv.Lemmas.CacheNotify
+import Fv.Props.C13
 /-
 C16 — eviction listener notifications are truthful and never duplicated.
+
+What is proved about the model (`Fv.Cache.stepOp`, every eviction policy, every oracle, every
+state) — `removed` is the ghost log of bindings taken out of the map other than by overwrite,
+`sent` the notifications handed to the notifier, `delivered` what the listener received:
+
+* `C16_sent_iff_removed`: with a listener, `sent` IS the list of non-`clear` removals of the call
+  (same key, value id, reason, same order); without one nothing is sent.  Overwriting by insert
+  is not a removal and is not notified.
+* `removed_sound`: every removal record names a binding that was visible in the map before the
+  call (or that the call itself had just written), that key is unbound afterwards, and no key is
+  removed — hence notified — twice in one call.
+* `removed_reasons` and corollaries: `Invalidated` only for the key(s) the caller asked to remove,
+  `Capacity` only from calls that run admission-driven eviction or the capacity pass, `Expired`
+  only from `run_maintenance`; `tti_cleanup_removes_expired`: the idle-timeout sweep only removes
+  entries that are expired at the current time.
+* "`Expired` ⇒ the entry had expired" is FALSE for the TTL sweep (F7): `C16_fails_F7`.
+* delivery: `delivered_eq_sent`, `queue_bound`, `no_drop_while_closed`, `gate_open_delivers`.
 -/
 namespace Fv.Props.C16
 open Fv.Cache
+open Fv.Cache.Policy
+variable {P : Type}
 
+/-! ### notifications = removals -/
+
+/-- C16 (1): after any call, with a listener the notifications handed to the notifier are exactly
+    the removals of that call that are not due to `clear`, as lists (so: one notification per
+    removal, same key / value id / reason, nothing else, in order); without a listener nothing
+    is sent. -/
+theorem C16_sent_iff_removed (cfg : Cfg) (ops : PolicyOps P) (p0 : P) (o : Oracle) (s : State P) (op : Op) :
+    let r := stepOp cfg ops p0 o s op
+    if cfg.hasListener then r.1.sent = r.1.removed.filter (fun n => n.reason != .cleared) else r.1.sent = [] := by
+  intro r
+  have hempty : r.1.sent = [] → r.1.removed = [] →
+      (if cfg.hasListener then r.1.sent = r.1.removed.filter (fun n => n.reason != .cleared) else r.1.sent = []) := by
+    intro h1 h2; rw [h1, h2]; split <;> rfl
+  by_cases hr : op = .restore
+  · subst hr
+    have : r.1.sent = [] ∧ r.1.removed = [] := by
+      show (match s.resetLogs.snap with
+        | some sn => (State.restore cfg p0 s.resetLogs.now sn, Ret.unit)
+        | none => (s.resetLogs, Ret.unit)).1.sent = [] ∧ (match s.resetLogs.snap with
+        | some sn => (State.restore cfg p0 s.resetLogs.now sn, Ret.unit)
+        | none => (s.resetLogs, Ret.unit)).1.removed = []
+      split <;> exact ⟨rfl, rfl⟩
+    exact hempty this.1 this.2
+  · by_cases hg : ∃ c, op = .gate c
+    · obtain ⟨c, rfl⟩ := hg
+      have : r.1.sent = [] ∧ r.1.removed = [] := by cases c <;> exact ⟨rfl, rfl⟩
+      exact hempty this.1 this.2
+    · have hv := stepOp_view cfg ops p0 o s op hr (fun c h => hg ⟨c, h⟩)
+      have hs : r.1.sent = (nview r.1).sent := rfl
+      rw [hs, hv, NView.notifyAll_sent]
+      split
+      · rfl
+      · rfl
+
+/-! ### removals are real -/
+
+/-- C16 (2): under `WF s` (distinct keys), every removal record of a call names the binding that
+    `lookup` showed for that key before the call, with the same value id — or the value the call
+    itself had just written (a synchronous insert followed by its own opportunistic maintenance);
+    afterwards the key is unbound (no read returns that value any more); and no key occurs twice
+    among the removals of one call, so by `C16_sent_iff_removed` nothing is notified twice. -/
+theorem removed_sound (cfg : Cfg) (ops : PolicyOps P) (p0 : P) (o : Oracle) (s : State P) (op : Op) (hwf : WF s) :
+    let r := stepOp cfg ops p0 o s op
+    (∀ n, n ∈ r.1.removed →
+        ((∃ e, lookup s.map n.key = some e ∧ (n.key, e) ∈ s.map ∧ e.vid = n.vid) ∨ OpWrote op n.key n.vid) ∧
+        lookup r.1.map n.key = none) ∧
+      (r.1.removed.map (·.key)).Nodup := by
+  intro r
+  obtain ⟨h1, h2⟩ := stepOp_removed cfg ops p0 o s op (fun _ => hwf.1)
+  refine ⟨fun n hn => ?_, h2⟩
+  obtain ⟨g1, g2, _⟩ := h1 n hn
+  refine ⟨?_, g2⟩
+  rcases g1 with ⟨e, he, hv⟩ | g
+  · exact Or.inl ⟨e, he, lookup_mem he, hv⟩
+  · exact Or.inr g
+
+/-! ### reasons -/
+
+/-- C16 (3): which call may log a removal with which reason (`OpQ`): `Invalidated` only
+    `remove k` / `invalidate k` / `multi_remove ks` for a requested key, `Cleared` only `clear`,
+    `Expired` only `run_maintenance`, `Capacity` only calls that drain write events or run the
+    capacity pass. -/
+theorem removed_reasons (cfg : Cfg) (ops : PolicyOps P) (p0 : P) (o : Oracle) (s : State P) (op : Op) :
+    ∀ n, n ∈ (stepOp cfg ops p0 o s op).1.removed → OpQ op n := by
+  intro n hn
+  by_cases hc : op = .clear
+  · subst hc
+    obtain ⟨h1, _, _⟩ := clearAll_spec cfg ops o s.resetLogs
+    have hrem : (stepOp cfg ops p0 o s .clear).1.removed =
+        s.map.map (fun p => ({ key := p.1, vid := p.2.vid, reason := .cleared } : Notif)) := by
+      show (s.resetLogs.clearAll cfg ops o).removed = _
+      rw [h1]; rfl
+    rw [hrem] at hn
+    obtain ⟨p, _, rfl⟩ := List.mem_map.1 hn
+    rfl
+  · exact ((stepOp_removed cfg ops p0 o s op (fun h => absurd h hc)).1 n hn).2.2
+
+theorem invalidated_only_on_request (cfg : Cfg) (ops : PolicyOps P) (p0 : P) (o : Oracle) (s : State P) (op : Op)
+    (n : Notif) (hn : n ∈ (stepOp cfg ops p0 o s op).1.removed) (hr : n.reason = .invalidated) :
+    op = .remove n.key ∨ op = .invalidate n.key ∨ ∃ ks, op = .multiRemove ks ∧ n.key ∈ ks := by
+  have := removed_reasons cfg ops p0 o s op n hn
+  unfold OpQ at this; rw [hr] at this; exact this
+
+theorem capacity_only_from_maintenance (cfg : Cfg) (ops : PolicyOps P) (p0 : P) (o : Oracle) (s : State P) (op : Op)
+    (n : Notif) (hn : n ∈ (stepOp cfg ops p0 o s op).1.removed) (hr : n.reason = .capacity) : OpDrains op := by
+  have := removed_reasons cfg ops p0 o s op n hn
+  unfold OpQ at this; rw [hr] at this; exact this
+
+theorem expired_only_from_run_maintenance (cfg : Cfg) (ops : PolicyOps P) (p0 : P) (o : Oracle) (s : State P) (op : Op)
+    (n : Notif) (hn : n ∈ (stepOp cfg ops p0 o s op).1.removed) (hr : n.reason = .expired) : op = .runMaintenance := by
+  have := removed_reasons cfg ops p0 o s op n hn
+  unfold OpQ at this; rw [hr] at this; exact this
+
+/-- inside `run_maintenance` (and the other draining calls): the drain and the capacity pass log
+    only `Capacity` removals (they are the only callers of `evictVictim` / `capRemove`), the two
+    expiry sweeps only `Expired` ones. -/
+theorem pass_reasons (cfg : Cfg) (ops : PolicyOps P) (o : Oracle) (s : State P) (i limit : Nat) :
+    (∃ rs, (s.performShard cfg ops o i limit).removed = s.removed ++ rs ∧ ∀ n, n ∈ rs → n.reason = .capacity) ∧
+    (∃ rs, (s.cleanupCapacity cfg ops o i).removed = s.removed ++ rs ∧ ∀ n, n ∈ rs → n.reason = .capacity) ∧
+    (∃ rs, (s.cleanupTtl cfg ops o i).removed = s.removed ++ rs ∧ ∀ n, n ∈ rs → n.reason = .expired) ∧
+    (∃ rs, (s.cleanupTti cfg ops o i).removed = s.removed ++ rs ∧ ∀ n, n ∈ rs → n.reason = .expired) := by
+  refine ⟨?_, ?_, ?_, ?_⟩
+  · obtain ⟨rs, h⟩ := performShard_eff cfg ops o s i limit
+    exact ⟨rs, h.removed, fun n hn => by obtain ⟨_, _, _, hq⟩ := h.was n hn; exact hq⟩
+  · obtain ⟨rs, h⟩ := cleanupCapacity_eff cfg ops o s i
+    exact ⟨rs, h.removed, fun n hn => by obtain ⟨_, _, _, hq⟩ := h.was n hn; exact hq⟩
+  · obtain ⟨rs, h⟩ := cleanupTtl_eff cfg ops o s i
+    exact ⟨rs, h.removed, fun n hn => by obtain ⟨_, _, _, hq⟩ := h.was n hn; exact hq⟩
+  · obtain ⟨rs, h⟩ := cleanupTti_eff cfg ops o s i
+    exact ⟨rs, h.removed, fun n hn => by obtain ⟨_, _, _, hq⟩ := h.was n hn; exact hq⟩
+
+/-- the idle-timeout sweep is truthful: every entry `cleanup_tti_for_shard` removes (and reports
+    as `Expired`) is the binding the map showed, and `is_expired` holds for it at the current time.
+    (The TTL sweep does NOT have this property — F7, `C16_fails_F7`.) -/
+theorem tti_cleanup_removes_expired (cfg : Cfg) (ops : PolicyOps P) (o : Oracle) (s : State P) (i : Nat) :
+    ∃ rs, (s.cleanupTti cfg ops o i).removed = s.removed ++ rs ∧
+      ∀ n, n ∈ rs → ∃ e, lookup s.map n.key = some e ∧ e.vid = n.vid ∧ n.reason = .expired ∧
+        e.isExpired s.now cfg.tti = true := by
+  obtain ⟨rs, h⟩ := cleanupTti_eff_mem cfg ops o s i
+  refine ⟨rs, h.removed, fun n hn => ?_⟩
+  obtain ⟨e, he, hv, hq, hx⟩ := h.was n hn
+  exact ⟨e, he, hv, hq, hx⟩
+
+/-! ### delivery -/
+
+/-- C16 (4a): while the listener's gate is open, everything handed to the notifier during a call
+    has been delivered when the call returns, in order. -/
+theorem delivered_eq_sent (cfg : Cfg) (ops : PolicyOps P) (p0 : P) (o : Oracle) (s : State P) (op : Op)
+    (hopen : s.lis.gateClosed = false) (hg : ∀ c, op ≠ .gate c) :
+    (stepOp cfg ops p0 o s op).1.delivered = (stepOp cfg ops p0 o s op).1.sent := by
+  by_cases hr : op = .restore
+  · subst hr
+    show (match s.resetLogs.snap with
+      | some sn => (State.restore cfg p0 s.resetLogs.now sn, Ret.unit)
+      | none => (s.resetLogs, Ret.unit)).1.delivered = (match s.resetLogs.snap with
+      | some sn => (State.restore cfg p0 s.resetLogs.now sn, Ret.unit)
+      | none => (s.resetLogs, Ret.unit)).1.sent
+    split <;> rfl
+  · have hv := stepOp_view cfg ops p0 o s op hr hg
+    have h1 : (stepOp cfg ops p0 o s op).1.delivered = (nview (stepOp cfg ops p0 o s op).1).delivered := rfl
+    have h2 : (stepOp cfg ops p0 o s op).1.sent = (nview (stepOp cfg ops p0 o s op).1).sent := rfl
+    rw [h1, h2, hv, NView.notifyAll_sent, (NView.notifyAll_open cfg _ ⟨[], [], s.lis⟩ hopen).1]
+
+/-- C16 (4b): the notifier queue never exceeds `NOTIFICATION_CHANNEL_CAPACITY` — invariant of
+    every call. -/
+theorem queue_bound (cfg : Cfg) (ops : PolicyOps P) (p0 : P) (o : Oracle) (s : State P) (op : Op)
+    (hq : s.lis.queue.length ≤ cfg.queueCap) : (stepOp cfg ops p0 o s op).1.lis.queue.length ≤ cfg.queueCap := by
+  by_cases hr : op = .restore
+  · subst hr
+    show (match s.resetLogs.snap with
+      | some sn => (State.restore cfg p0 s.resetLogs.now sn, Ret.unit)
+      | none => (s.resetLogs, Ret.unit)).1.lis.queue.length ≤ cfg.queueCap
+    split
+    · exact Nat.zero_le _
+    · exact hq
+  · by_cases hg : ∃ c, op = .gate c
+    · obtain ⟨c, rfl⟩ := hg
+      cases c
+      · exact Nat.zero_le _
+      · exact hq
+    · have hv := stepOp_view cfg ops p0 o s op hr (fun c h => hg ⟨c, h⟩)
+      have h1 : (stepOp cfg ops p0 o s op).1.lis = (nview (stepOp cfg ops p0 o s op).1).lis := rfl
+      rw [h1, hv]
+      exact NView.notifyAll_queue cfg _ ⟨[], [], s.lis⟩ hq
+
+/-- the shape invariant of the notifier (it holds a notification whenever its queue is not empty)
+    is preserved by every call -/
+theorem lisWF_preserved (cfg : Cfg) (ops : PolicyOps P) (p0 : P) (o : Oracle) (s : State P) (op : Op)
+    (hw : LisWF s.lis) : LisWF (stepOp cfg ops p0 o s op).1.lis := by
+  by_cases hr : op = .restore
+  · subst hr
+    show LisWF (match s.resetLogs.snap with
+      | some sn => (State.restore cfg p0 s.resetLogs.now sn, Ret.unit)
+      | none => (s.resetLogs, Ret.unit)).1.lis
+    split
+    · intro _; rfl
+    · exact hw
+  · by_cases hg : ∃ c, op = .gate c
+    · obtain ⟨c, rfl⟩ := hg
+      cases c
+      · intro _; rfl
+      · exact hw
+    · have hv := stepOp_view cfg ops p0 o s op hr (fun c h => hg ⟨c, h⟩)
+      have h1 : (stepOp cfg ops p0 o s op).1.lis = (nview (stepOp cfg ops p0 o s op).1).lis := rfl
+      rw [h1, hv]
+      exact NView.notifyAll_liswf cfg _ ⟨[], [], s.lis⟩ hw
+
+/-- C16 (4c): while the gate is closed nothing is dropped as long as at most `queueCap + 1`
+    notifications are outstanding (one held by the notifier thread, `queueCap` queued): the
+    outstanding notifications after the call are the old ones followed by everything this call
+    sent, in order; nothing is delivered; the gate stays closed. -/
+theorem no_drop_while_closed (cfg : Cfg) (ops : PolicyOps P) (p0 : P) (o : Oracle) (s : State P) (op : Op)
+    (hclosed : s.lis.gateClosed = true) (hw : LisWF s.lis) (hr : op ≠ .restore) (hg : ∀ c, op ≠ .gate c)
+    (hroom : s.lis.outstanding.length + (stepOp cfg ops p0 o s op).1.sent.length ≤ cfg.queueCap + 1) :
+    (stepOp cfg ops p0 o s op).1.lis.outstanding = s.lis.outstanding ++ (stepOp cfg ops p0 o s op).1.sent ∧
+      (stepOp cfg ops p0 o s op).1.delivered = [] ∧ (stepOp cfg ops p0 o s op).1.lis.gateClosed = true := by
+  have hv := stepOp_view cfg ops p0 o s op hr hg
+  have h1 : (stepOp cfg ops p0 o s op).1.lis = (NView.notifyAll cfg ⟨[], [], s.lis⟩
+      ((stepOp cfg ops p0 o s op).1.removed.filter notCleared)).lis := congrArg NView.lis hv
+  have h2 : (stepOp cfg ops p0 o s op).1.sent = (NView.notifyAll cfg ⟨[], [], s.lis⟩
+      ((stepOp cfg ops p0 o s op).1.removed.filter notCleared)).sent := congrArg NView.sent hv
+  have h3 : (stepOp cfg ops p0 o s op).1.delivered = (NView.notifyAll cfg ⟨[], [], s.lis⟩
+      ((stepOp cfg ops p0 o s op).1.removed.filter notCleared)).delivered := congrArg NView.delivered hv
+  rw [h2] at hroom
+  rw [h1, h2, h3]
+  generalize (stepOp cfg ops p0 o s op).1.removed.filter notCleared = ns at hroom ⊢
+  rw [NView.notifyAll_sent] at hroom ⊢
+  rw [NView.notifyAll_gate]
+  cases hl : cfg.hasListener with
+  | false =>
+    rw [NView.notifyAll_nolistener cfg hl]
+    simp [hclosed]
+  | true =>
+    rw [hl] at hroom
+    simp only [if_true, List.nil_append] at hroom ⊢
+    obtain ⟨g1, _, g3⟩ := NView.notifyAll_closed cfg hl _ ⟨[], [], s.lis⟩ hclosed hw hroom
+    exact ⟨g1, g3, hclosed⟩
+
+/-- opening the gate delivers the held notification and then the queue, in order, and empties
+    the notifier -/
+theorem gate_open_delivers (cfg : Cfg) (ops : PolicyOps P) (p0 : P) (o : Oracle) (s : State P) :
+    (stepOp cfg ops p0 o s (.gate false)).1.delivered = s.lis.outstanding ∧
+      (stepOp cfg ops p0 o s (.gate false)).1.lis = {} := by
+  refine ⟨?_, rfl⟩
+  show (match s.lis.inFlight with | some n => [n] | none => []) ++ s.lis.queue = s.lis.inFlight.toList ++ s.lis.queue
+  cases s.lis.inFlight <;> rfl
+
+/-! ### non-vacuity: concrete runs with a listener -/
+def cfgL : Cfg := { hasListener := true }
+def oo : Oracle := {}
+
+/-- explicit removal: one notification, reason `Invalidated`, delivered (gate open) -/
+example : let s := (run cfgL nullOps () (State.fresh cfgL () 0) [(.insert false 1 101 1, oo), (.remove 1, oo)]).1
+    s.removed = [{ key := 1, vid := 101, reason := .invalidated }] ∧ s.sent = s.removed ∧ s.delivered = s.sent := by
+  decide
+
+/-- overwrite is not a removal; `clear` removals are logged but not notified -/
+example : let s := (run cfgL nullOps () (State.fresh cfgL () 0)
+      [(.insert false 1 101 1, oo), (.insert false 1 102 1, oo)]).1
+    s.removed = [] ∧ s.sent = [] := by decide
+example : let s := (run cfgL nullOps () (State.fresh cfgL () 0)
+      [(.insert false 1 101 1, oo), (.insert false 2 102 1, oo), (.clear, oo)]).1
+    s.removed.length = 2 ∧ s.sent = [] ∧ WF (State.fresh cfgL () 0) :=
+  ⟨by decide, by decide, (Fv.Props.C13.fresh_wf_acc cfgL () 0).1⟩
+
+def cfgLruL : Cfg := { capacity := 5, trackReads := true, hasListener := true }
+
+/-- a capacity pass with the LRU policy: the evicted entry is notified with reason `Capacity` -/
+example : let s := (run cfgLruL Fv.Props.C13.lruOps Lru.init (State.fresh cfgLruL Lru.init 0)
+      [(.insert false 2 102 3, oo), (.insert false 3 103 3, oo), (.runMaintenance, oo)]).1
+    s.sent = [{ key := 2, vid := 102, reason := .capacity }] ∧ s.removed = s.sent ∧ lookup s.map 2 = none := by
+  decide
+
+/-- gate closed: notifications stay outstanding (hypotheses of `no_drop_while_closed`), opening
+    the gate delivers them in order (`gate_open_delivers`) -/
+def gatedRun : State Unit :=
+  (run cfgL nullOps () (State.fresh cfgL () 0)
+    [(.insert false 1 101 1, oo), (.insert false 2 102 1, oo), (.gate true, oo), (.remove 1, oo), (.remove 2, oo)]).1
+
+example : gatedRun.lis.gateClosed = true ∧ gatedRun.lis.outstanding =
+    [{ key := 1, vid := 101, reason := .invalidated }, { key := 2, vid := 102, reason := .invalidated }] ∧
+    gatedRun.delivered = [] ∧ gatedRun.lis.queue.length ≤ cfgL.queueCap := by decide
+example : LisWF gatedRun.lis := by intro h; revert h; decide
+example : (stepOp cfgL nullOps () oo gatedRun (.gate false)).1.delivered =
+    [{ key := 1, vid := 101, reason := .invalidated }, { key := 2, vid := 102, reason := .invalidated }] := by decide
+
+/-- the TTI sweep with an idle entry: removed and reported `Expired`, and it IS expired -/
+def cfgTti : Cfg := { tti := some 1000, hasListener := true }
+example : let s := (run cfgTti nullOps () (State.fresh cfgTti () 0)
+      [(.insert false 1 101 1, oo), (.advance 2000, oo), (.runMaintenance, oo)]).1
+    s.sent = [{ key := 1, vid := 101, reason := .expired }] := by decide
+
+/-! ### F7: `Expired` is reported for an entry that has not expired -/
 def cfgF7 : Cfg := { ttl := some 3000, hasListener := true }
 
 /-- F7 seen by the listener: four `run_maintenance` calls at age 0 of a 3 s-TTL entry, the
@@ -15,5 +308,16 @@ def f7Run : State Unit × List Ret :=
 
 theorem C16_fails_F7 :
     f7Run.1.delivered = [{ key := 1, vid := 101, reason := .expired }] ∧ f7Run.1.now = 5000 := by decide
+
+/-- the same run one call earlier: the entry is resident, its deadline (8000) is in the future and
+    `is_expired` is false at the time (5000) of the call that removes it as `Expired` -/
+def f7Before : State Unit :=
+  (run cfgF7 nullOps () (State.fresh cfgF7 () 5000)
+    [(.insert false 1 101 1, {}), (.runMaintenance, {}), (.runMaintenance, {}), (.runMaintenance, {})]).1
+
+theorem C16_fails_F7_unexpired :
+    (lookup f7Before.map 1).map (fun e => (e.vid, e.expiresAt, e.isExpired f7Before.now cfgF7.tti)) = some (101, 8000, false) ∧
+      (stepOp cfgF7 nullOps () {} f7Before .runMaintenance).1.removed = [{ key := 1, vid := 101, reason := .expired }] := by
+  decide
 
 end Fv.Props.C16
